@@ -161,19 +161,49 @@ type verifC18Res struct {
 }
 
 func verifC18Get(f []string) string {
-	cid, e1 := verifC18Unhex(f[1])
-	req, e2 := verifC18Unhex(f[2])
-	fwd, e3 := verifC18Unhex(f[3])
-	local, e4 := verifC18ParseAnswer(f[4])
-	if e1 != nil || e2 != nil || e3 != nil || e4 != nil {
+	cid, err := verifC18Unhex(f[1])
+	if err != nil {
+		return "bad-op"
+	}
+	conn := &Conn{cluster: &arvados.Cluster{ClusterID: cid}, remotes: map[string]backend{}}
+	return verifC18Step(conn, f[2:7])
+}
+
+// verifC18GetSeq runs a sequence of requests through ONE Conn (the controller keeps a single
+// federation.Conn for its whole life); the scripted answers of the backends change per request.
+func verifC18GetSeq(f []string) string {
+	cid, err := verifC18Unhex(f[1])
+	n, err2 := strconv.Atoi(f[2])
+	if err != nil || err2 != nil || n < 1 || len(f) != 3+5*n {
+		return "bad-op"
+	}
+	conn := &Conn{cluster: &arvados.Cluster{ClusterID: cid}, remotes: map[string]backend{}}
+	var outs []string
+	for i := 0; i < n; i++ {
+		r := verifC18Step(conn, f[3+5*i:8+5*i])
+		if r == "bad-op" {
+			return "bad-op"
+		}
+		outs = append(outs, r)
+	}
+	return strings.Join(outs, " | ")
+}
+
+// verifC18Step: f = req, fwd, local answer, remotes, order. The Conn's backends are replaced by
+// fresh scripted stubs under the same ids; everything else of the Conn is kept.
+func verifC18Step(conn *Conn, f []string) string {
+	req, e2 := verifC18Unhex(f[0])
+	fwd, e3 := verifC18Unhex(f[1])
+	local, e4 := verifC18ParseAnswer(f[2])
+	if e2 != nil || e3 != nil || e4 != nil {
 		return "bad-op"
 	}
 	remotes := map[string]backend{}
 	stubs := map[string]*verifC18Stub{}
 	var all []*verifC18Stub
 	all = append(all, local)
-	if f[5] != "-" {
-		for _, ent := range strings.Split(f[5], ";") {
+	if f[3] != "-" {
+		for _, ent := range strings.Split(f[3], ";") {
 			kv := strings.SplitN(ent, "=", 2)
 			if len(kv) != 2 {
 				return "bad-op"
@@ -191,15 +221,21 @@ func verifC18Get(f []string) string {
 		}
 	}
 	var order []string
-	if f[6] != "-" {
-		order = strings.Split(f[6], ",")
+	if f[4] != "-" {
+		order = strings.Split(f[4], ",")
 		for _, id := range order {
 			if stubs[id] == nil {
 				return "bad-op"
 			}
 		}
 	}
-	conn := &Conn{cluster: &arvados.Cluster{ClusterID: cid}, local: local, remotes: remotes}
+	conn.local = local
+	for k := range conn.remotes {
+		delete(conn.remotes, k)
+	}
+	for k, v := range remotes {
+		conn.remotes[k] = v
+	}
 	logger := logrus.New()
 	logger.Out = ioutil.Discard
 	hook := &verifC18Hook{}
@@ -364,6 +400,8 @@ func verifC18Case(line string) (out string) {
 		return arvados.PortableDataHash(mt)
 	case f[0] == "get" && len(f) == 7:
 		return verifC18Get(f)
+	case f[0] == "getseq" && len(f) >= 8:
+		return verifC18GetSeq(f)
 	}
 	return "bad-op"
 }
